@@ -28,17 +28,6 @@ import (
 // new hour (its period is one second).
 const c09LoopPolls = 3
 
-// c09StopLoop makes the hourly loop of a (closed) module exit at its next
-// wake-up through the product's own stop condition (flush returns cont=false
-// when there is no current unit).  A bubble cannot be left while a goroutine
-// of it lives, and after Close the unchanged loop would spin without sleeping
-// as soon as the hour changes, which would freeze the virtual clock.
-func c09StopLoop(in *c09Inst) {
-	in.s.currMu.Lock()
-	in.s.curr = nil
-	in.s.currMu.Unlock()
-}
-
 type c09LoopStep struct {
 	At      string         `json:"virtual_time"`
 	Op      string         `json:"op"`
